@@ -217,13 +217,13 @@ def points(ctx, lim):
                               {'sequence': [repr(v)[:80] for v in vals][:2], 'problems': bad[:2]},
                               'f(z0 + d_z) * d_z**pole_order with one and the same d_z', label, key='residue multiplier')
                 if cls == 'Residue' and method == 'above':
-                    order = obj.attrs.get('order')
+                    order = I.getattr(obj, 'order')
                     rep.check(order == pole + 2, 'R-RESIDUE', 'limits.Residue.__init__', lim.relpath,
                               {'pole_order': pole, 'default_order': order}, 'order = pole_order + 2', label, key='residue order')
                 if method == 'above' and pole in (None, 1):
                     rich = obj.attrs.get('richardson')
-                    ok = rich is not None and repr(rich.attrs.get('step_ratio')) == repr(I.getattr(gen, 'step_ratio')) and \
-                        rich.attrs.get('step') == 1 and rich.attrs.get('order') == 1
+                    ok = rich is not None and repr(I.getattr(rich, 'step_ratio')) == repr(I.getattr(gen, 'step_ratio')) and \
+                        I.getattr(rich, 'step') == 1 and I.getattr(rich, 'order') == 1
                     rep.check(ok, 'R-TERMS', 'limits.Limit._lim', lim.relpath,
                               {k: repr(rich.attrs.get(k)) for k in ('step_ratio', 'step', 'order', 'num_terms')} if rich else {},
                               'Richardson(step_ratio = generator ratio, step = 1, order = 1)', label, key='terms')
